@@ -10,6 +10,7 @@ import (
 	"crypto/rsa"
 	"crypto/x509"
 	"crypto/x509/pkix"
+	"encoding/asn1"
 	"encoding/hex"
 	"encoding/pem"
 	"errors"
@@ -103,6 +104,9 @@ func issue(s *SymSigner, serial *big.Int, subject pkix.Name) *x509.Certificate {
 		caCert, _ = x509.ParseCertificate(der)
 	})
 	tmpl := &x509.Certificate{SerialNumber: serial, Subject: subject, NotBefore: time.Unix(1600000000, 0), NotAfter: time.Unix(2500000000, 0)}
+	if certExtra > 1000 {
+		tmpl.ExtraExtensions = []pkix.Extension{{Id: asn1.ObjectIdentifier{1, 3, 6, 1, 4, 1, 99999, 1}, Value: make([]byte, certExtra)}}
+	}
 	der, err := x509.CreateCertificate(rand.Reader, tmpl, caCert, &s.key.PublicKey, caKey)
 	if err != nil {
 		panic(err)
@@ -115,7 +119,11 @@ func issue(s *SymSigner, serial *big.Int, subject pkix.Name) *x509.Certificate {
 }
 
 // CertRawLen sets the length of the opaque certificate bytes under the executor (default 5).
-func CertRawLen(n int) {}
+// Natively, a length above 1000 makes later certificates carry an opaque extension of that many
+// bytes, so that the real certificate is at least as long as the model's.
+func CertRawLen(n int) { certExtra = n }
+
+var certExtra int
 
 // CertSameID returns a certificate with the same issuer name and serial number as like, but for
 // the key of signer ("another key under the same issuer and serial").
